@@ -996,12 +996,20 @@ func (c *c14Case) emitFrames(rec *c14Rec, o *vu.Out) {
 	}
 	dirName := [2]string{"c", "s"}
 	// advertised MAX_HEADER_LIST_SIZE of the receiver of each direction
-	limit := [2]int{c.cfg.smh + 320, c.cfg.cmh}
+	limit := [2]int{int(uint32(c.cfg.smh + 320)), c.cfg.cmh}
 	if c.cfg.smh <= 0 {
 		limit[0] = http.DefaultMaxHeaderBytes + 320
 	}
 	if c.cfg.cmh <= 0 {
 		limit[1] = 10 << 20
+	} else if c.cfg.cmh >= 0xffffffff {
+		limit[1] = 16 << 20 // "no limit": not advertised, the Framer's own default applies
+	}
+	if c.cfg.smh >= 1<<31-320 {
+		o.Stat("hls-config:server>=2^31")
+	}
+	if c.cfg.cmh >= 1<<31 {
+		o.Stat("hls-config:client>=2^31")
 	}
 	firstBlock := map[[2]uint32]bool{}
 	for _, f := range frames {
